@@ -20,14 +20,18 @@ def extra(rep, info, seed, q):
     ok2 = not ces['disagreements'] and not ces['coq_errors'] and ces['evaluations'] > 0
     rep.obligation('correspondence 4.1 (poses): %d cases agree' % cps['evaluations'], ok1, json.dumps((cps['disagreements'] + cps['coq_errors'])[:1], default=str)[:1200])
     rep.obligation('correspondence 4.1 (edge programs): %d cases agree' % ces['evaluations'], ok2, json.dumps((ces['disagreements'] + ces['coq_errors'])[:1], default=str)[:1200])
-    return ok1 and ok2
+    from props import _optcommon
+    ok3 = _optcommon.optloop_extra(rep, seed, q)
+    return ok1 and ok2 and ok3
 
 
 def run(rep, tier, seed):
     rep.assumptions.append('The clause "negating any SE(3) unit quaternion" is REFUTED for odometry edges whose information matrix has a '
                            'translation-rotation cross term (theorem C08 last conjunct, known_findings.json); it is proved for landmark edges and for '
-                           'block-diagonal information. Invariance under permuting the VERTEX list is covered by the oracle only (the theorem covers '
-                           'edge order, relabelling, 2 pi, splitting, scaling).')
+                           'block-diagonal information. "The optimization result is unchanged" is proved as correspondence of the assembled linear systems and of '
+                           'their solutions (edge order, vertex order with the renumbering phi, relabelling, 2 pi, splitting, scaling), not through the float solver; '
+                           'the stopping rule divides by (chi2_prev + machine epsilon), so runs on information scaled below ~1e-12 may stop one iteration apart '
+                           '(same optimum): the oracle does not require borderline decisions to agree.')
     _graphcommon.run(rep, tier, seed, 'C08', ['C08'],
                      'edge permutation, id relabelling, 2 pi, edge splitting, information scaling, quaternion sign (restricted + refuted)',
                      oracle_graph.representation_independence,
